@@ -2,12 +2,15 @@ r"""Custom samplers for ``torch.utils.data.DataLoader``."""
 
 import math
 import multiprocessing as mp
-from typing import Iterator, Optional, Sequence
+from typing import Iterator, Optional, Sequence, TypeVar
 
 import torch
 import torch.distributed as dist
 
-from torch.utils.data.sampler import Sampler, T_co
+from torch.utils.data.sampler import Sampler
+
+
+T_co = TypeVar("T_co", covariant=True)
 
 
 class DistributedWeightedRandomSampler(Sampler[T_co]):
